@@ -160,7 +160,7 @@ func (c *Ctx) SampleCase(class string, cs *Case) {
 	if c.nsamples[class] >= 2 || len(c.R.Samples) >= 12 {
 		return
 	}
-	c.Sample(class, map[string]any{"kind": cs.Kind, "input": Quote(cs.In), "limit": cs.Limit, "ints": cs.Ints, "strs": cs.Strs})
+	c.Sample(class, map[string]any{"kind": cs.Kind, "input": Quote(cs.In), "limit": cs.Limit, "ints": append([]int(nil), cs.Ints...), "strs": append([]string(nil), cs.Strs...)})
 }
 
 // Quote renders bytes readably and bounded.
